@@ -35,13 +35,18 @@ FORMS = {
     "date_int": "date(int(d))",
     "date_dec": "date(decimal(d))",
     "cmp": "[d < d + 1, d + 1 > d, d == d + 0, d - 1 < d]",
+    # the text side: every real calendar day is a valid date in the
+    # documented default format, an impossible one is not
+    "parse": "[parse_date(t), is_valid_date(t), "
+             "parse_date(t2, fmt = 'ddMMyyyy'), date(t), string(date(t))]",
+    "parse_bad": "[parse_date(t), is_valid_date(t)]",
 }
 _F = {}
 
 
 def forms():
     if "f" not in _F:
-        _F["f"] = core.Forms(FORMS)
+        _F["f"] = core.Forms(FORMS, prelude="require Date import [parse_date];")
     return _F["f"]
 
 
@@ -144,6 +149,45 @@ def boundary_days(year):
     return out
 
 
+def check_texts(agg, year):
+    """text forms of the boundary days of one year and of its impossible
+    days (Feb 30, Feb 29 of a common year, Apr 31, month 13)"""
+    f = forms()
+    V = core.ckl.values
+    for o in boundary_days(year):
+        dt = mkdate(o)
+        t = dt.strftime("%Y%m%d") if year >= 1000 else \
+            "%04d%02d%02d" % (dt.year, dt.month, dt.day)
+        t2 = t[6:8] + t[4:6] + t[0:4]
+        r = f.ev("parse", t=V.ValueString(t), t2=V.ValueString(t2))
+        agg.count("steps")
+        ok = r[0] == "value" and isinstance(r[1], V.ValueList) and \
+            len(r[1].value) == 5
+        if ok:
+            a, b, c, d, e = r[1].value
+            ok = all(isinstance(x, V.ValueDate) and x.value == dt
+                     for x in (a, c, d)) and b is V.TRUE and \
+                isinstance(e, V.ValueString) and e.value == t + "000000"
+        if not ok:
+            agg.violation({"law": "text:real-day-is-valid"},
+                          {"t": "text", "year": year, "text": t},
+                          "the date " + t, core.show_raw(r), size=1)
+    leap = year % 4 == 0 and (year % 100 != 0 or year % 400 == 0)
+    bad = ["%04d0230" % year, "%04d0431" % year, "%04d1301" % year,
+           "%04d0100" % year]
+    if not leap:
+        bad.append("%04d0229" % year)
+    for t in bad:
+        r = f.ev("parse_bad", t=V.ValueString(t))
+        agg.count("steps")
+        ok = r[0] == "value" and isinstance(r[1], V.ValueList) and \
+            r[1].value[0] is V.NULL and r[1].value[1] is V.FALSE
+        if not ok:
+            agg.violation({"law": "text:impossible-day-is-invalid"},
+                          {"t": "text", "year": year, "text": t},
+                          "[NULL, FALSE]", core.show_raw(r), size=1)
+
+
 def explore_days(chunk):
     agg = core.Agg()
     core.arm(7200)
@@ -160,6 +204,9 @@ def explore_days(chunk):
                                 "to_oa_date": D.to_oa_date(dt),
                                 "to_date": str(D.to_date(o - BASE))}, 4)
         for (y, level) in chunk["years"]:
+            if chunk.get("texts_all") or level != "conv" or y <= 2400 \
+                    or y % 100 == 0:
+                check_texts(agg, y)
             for o in boundary_days(y):
                 check_day(agg, o, level != "conv")
                 agg.count("cases")
@@ -299,6 +346,12 @@ def explore_seconds(chunk):
 
 def replay(case, verbose=False):
     agg = core.Agg()
+    if case["t"] == "text":
+        a = core.Agg()
+        check_texts(a, case["year"])
+        if verbose:
+            print(a.viol)
+        return bool(a.viol)
     if case["t"] == "diff":
         a = explore_seconds({"days": [case["ordinal"]], "seconds": [],
                              "lang_every": 1})
@@ -357,7 +410,8 @@ def main(tier, seed):
         lang_every = 1
     jobs = [{"ranges": [r], "years": []} for r in ranges]
     for c in core.chunked(years, core.NPROC * 4):
-        jobs.append({"ranges": [], "years": c})
+        jobs.append({"ranges": [], "years": c,
+                     "texts_all": tier == "thorough"})
     agg = core.pmap(explore_days, jobs)
     sjobs = []
     for d in sec_days:
